@@ -19,9 +19,50 @@ package composite
 //@   requires factoryInv(pc.customize.dynInformers)
 //@   requires validRMInf(pc.customize)
 //@   requires validPC(pc) && parent != nil
+//@   // the parent and the ControllerRevisions come from the informer caches: everything written is a copy made here. The shallow
+//@   // frame is assumed (checking it needs writes clauses on the whole rolling-update family); the deep part - patches are
+//@   // applied only to deep copies - is the precondition of applyPatch, checked at its call site
 //@   writes-assumed fresh, pc.customize
+//@   // every step that can fail ends the sync with an error before any child is touched
+//@   failstop [C09,C12] parentController.claimRevisions, makePatch, applyPatch, parentController.newControllerRevision, parentController.syncRollingUpdate, parentController.manageRevisions
+//@   bind call parentController.syncRollingUpdate: sruErr
+//@   bind call parentController.manageRevisions: mrErr
+//@   invariant loop 2 [C09]: validRM0(pc.customize)
+//@   invariant loop 2 [C09]: factoryInv(pc.customize.dynInformers)
+//@   invariant loop 2 [C09]: validRMInf(pc.customize)
+//@   invariant loop 2 [C09]: validPC(pc)
+//@   at applyPatch(d, pt, fp) [C17,C09]: deepfresh(d)
+//@   at parentController.manageRevisions(p, par, obs, des) [C09]: called(parentController.syncRollingUpdate) && sruErr == nil && par == parent
 //@   ensures [C09] err != nil ==> res == nil
 //@   ensures [C09] err == nil ==> res != nil
+//@   // with a rolling strategy a successful answer is only given after the revision bookkeeping was written
+//@   ensures [C09] err == nil && called(parentController.claimRevisions) ==> count(parentController.manageRevisions) == 1 && mrErr == nil
+
+// applyPatch writes nested fields (SetNestedField with a path) into dest: dest must be a private deep copy, never (a shallow
+// copy of) an object from an informer cache
+//@ func applyPatch(dest, patch, fieldPaths) (err)
+//@   requires [C17] dest != nil && deepfresh(dest)
+//@   safety C13,C17
+
+// claiming the parent's ControllerRevisions (adopt/release through the generic ControllerRef manager, as for children)
+//@ func parentController.claimRevisions(pc, parent) (revs, err)
+//@   requires validPC(pc) && parent != nil
+//@   trusted revision claiming is the generic claim chain applied to typed ControllerRevisions: not put under contract here
+//@   ensures err != nil ==> revs == nil
+
+// the per-revision hook call (run as a fork/join goroutine): a missing answer is an error of that revision, never a nil dereference
+//@ func parentController.syncRevisions$1(pr) ()
+//@   requires-assumed pr != nil && pr.parent != nil
+//@   requires *pc != nil && validPC(*pc) && *parent != nil
+//@   requires validRM0((*pc).customize)
+//@   requires factoryInv((*pc).customize.dynInformers)
+//@   requires validRMInf((*pc).customize)
+//@   safety C13
+//@   ensures [C13,C09] pr.syncError == nil ==> pr.syncResult != nil
+//@   ensures [C09] validRM0((*pc).customize)
+//@   ensures [C09] factoryInv((*pc).customize.dynInformers)
+//@   ensures [C09] validRMInf((*pc).customize)
+//@   ensures [C09] *pc == old(*pc) && validPC(*pc)
 
 //@ func parentController.makeSelector(pc, parent, extraMatchLabels) (sel, err)
 //@   requires validPC(pc) && parent != nil
@@ -335,8 +376,9 @@ package composite
 // function with an error at once (syncRevisions then returns an error and syncParentObject touches no child).
 //@ func parentController.manageRevisions(pc, parent, observedRevisions, desiredRevisions) (err)
 //@   requires validPC(pc) && parent != nil
-//@   requires forall j int :: 0 <= j && j < len(observedRevisions) ==> observedRevisions[j] != nil
-//@   requires forall j int :: 0 <= j && j < len(desiredRevisions) ==> desiredRevisions[j] != nil
+//@   // the lists come from the lister / from syncRevisions and hold no nil entries (relied upon, see syncRollingUpdate)
+//@   requires-assumed forall j int :: 0 <= j && j < len(observedRevisions) ==> observedRevisions[j] != nil
+//@   requires-assumed forall j int :: 0 <= j && j < len(desiredRevisions) ==> desiredRevisions[j] != nil
 //@   safety C13,C09
 //@   failstop [C09,C12] Delete, Update, Create
 //@   bind loop 2: oi, orev
@@ -411,9 +453,13 @@ package composite
 // moves), on success exactly that child moves (Updated=False/RolloutProgressing) - and the scan ends either way. If every
 // child is on the latest revision the condition is Updated=True/OnLatestRevision.
 //@ func parentController.syncRollingUpdate(pc, parentRevisions, observedChildren) (err)
-//@   requires validPC(pc) && validPRs(parentRevisions)
-//@   requires parentRevisions[0].syncResult != nil
-//@   requires noNilRelChildren(parentRevisions[0].desiredChildMap)
+//@   requires validPC(pc)
+//@   // shape of the revision list built by syncRevisions (every entry has a parent copy, a ControllerRevision, a hook answer and
+//@   // a child map without nil entries): syncRevisions is too large (eight loops, a fork/join) to carry these as loop invariants
+//@   // within the solvers' time, so they are relied upon here
+//@   requires-assumed validPRs(parentRevisions)
+//@   requires-assumed parentRevisions[0].syncResult != nil
+//@   requires-assumed noNilRelChildren(parentRevisions[0].desiredChildMap)
 //@   requires-assumed forall i int :: 0 <= i && i < len(parentRevisions[0].revision.Children) ==> (forall j int :: 0 <= j && j < len(parentRevisions[0].revision.Children[i].Names) ==> parentRevisions[0].desiredChildMap.FindGroupKindName(schema.GroupKind{Group: parentRevisions[0].revision.Children[i].APIGroup, Kind: parentRevisions[0].revision.Children[i].Kind}, parentRevisions[0].revision.Children[i].Names[j]) != nil)
 //@   safety C13,C07
 //@   bind call parentController.shouldContinueRolling: gateErr
@@ -425,13 +471,13 @@ package composite
 //@   at SetCondition#1(st, c) [C07]: st == status && st != nil && c != nil && c.Type == "Updated" && c.Status == "False" && c.Reason == "RolloutWaiting" && gateErr != nil
 //@   at SetCondition#2(st, c) [C07]: st == status && st != nil && c != nil && c.Type == "Updated" && c.Status == "False" && c.Reason == "RolloutProgressing" && gateErr == nil
 //@   at SetCondition#3(st, c) [C07,C08]: st == status && st != nil && c != nil && c.Type == "Updated" && c.Status == "True" && c.Reason == "OnLatestRevision" && !called(parentController.shouldContinueRolling)
-//@   invariant loop 3 [C07]: !called(parentController.shouldContinueRolling) && !called(SetCondition) && latest.syncResult != nil && latest.syncResult.Status != nil && validPRs(parentRevisions)
-//@   invariant loop 1 [C07]: latest.syncResult != nil && latest.syncResult.Status != nil && validPRs(parentRevisions) && !called(parentController.shouldContinueRolling) && !called(SetCondition)
+//@   invariant loop 3 [C07,C13]: !called(parentController.shouldContinueRolling) && !called(SetCondition) && latest.syncResult != nil && latest.syncResult.Status != nil && validPRs(parentRevisions)
+//@   invariant loop 1 [C07,C13]: latest.syncResult != nil && latest.syncResult.Status != nil && validPRs(parentRevisions) && !called(parentController.shouldContinueRolling) && !called(SetCondition)
 //@   invariant loop 1 [C07]: claimed != nil && validClaims(claimed)
 //@   invariant loop 1 [C07]: noNilRelChildren(latest.desiredChildMap)
-//@   invariant loop 2 [C07]: latest.syncResult != nil && latest.syncResult.Status != nil && validPRs(parentRevisions) && !called(parentController.shouldContinueRolling) && !called(SetCondition)
+//@   invariant loop 2 [C07,C13]: latest.syncResult != nil && latest.syncResult.Status != nil && validPRs(parentRevisions) && !called(parentController.shouldContinueRolling) && !called(SetCondition)
 //@   invariant loop 2 [C07]: claimed != nil && validClaims(claimed)
 //@   invariant loop 2 [C07]: noNilRelChildren(latest.desiredChildMap)
-//@   invariant loop 4 [C07]: validPRs(parentRevisions) && latest.syncResult != nil && latest.syncResult.Status != nil && called(parentController.shouldContinueRolling) && gateErr == nil && !called(SetCondition)
+//@   invariant loop 4 [C07,C13]: validPRs(parentRevisions) && latest.syncResult != nil && latest.syncResult.Status != nil && called(parentController.shouldContinueRolling) && gateErr == nil && !called(SetCondition)
 //@   ensures [C07] err == nil ==> count(SetCondition) == 1
 //@   ensures [C07] count(parentController.shouldContinueRolling) <= 1
